@@ -14,11 +14,15 @@ for l in open(os.path.join(here, "properties.jsonl")):
     if p["id"] == pid:
         prop = p
 assert prop, pid
+import re
+_src = open(os.path.join(here, "tools", "seedrecheck.py")).read()
+NEEDS = eval(re.search(r"NEEDS = (\{.*?\n\})", _src, re.S).group(1))
 used = []
 for m in sorted(glob.glob(os.path.join(here, "seeded", pid + "-*", "meta.json"))):
     d = json.load(open(m))
-    if d.get("needs_to_manifest"):
-        used.append(d["needs_to_manifest"])
+    n = d.get("needs_to_manifest") or NEEDS.get(d.get("seed_id", ""), "")
+    if n:
+        used.append(n)
 wt = f"/tmp/seed{rnd}_{pid}"
 out = f"/tmp/seed{rnd}_{pid}_out"
 print(f"""You are helping to evaluate a test framework for the Go module github.com/enbility/spine-go (an implementation of the
